@@ -156,6 +156,33 @@ def run(ctx):
             ctx.violation("leftover-token|%s" % res.get("Some"), sp_file_line(ps.term(sbk).get("sp")),
                           "after one statement is parsed, a surplus token %s instead of being refused with an error "
                           "(e.g. `eval add r1 r1 #1 r2`)" % what)
+    # the token pre-pass of eval hands the parser *all* tokens up to the end of the text: only Eof ends its loop
+    pps = ctx.fn("lace::parser::preprocess_simple")
+    TK = "lace::lexer::TokenKind"
+    tsw = list(kit.discr_switches(pps, TK))
+    ctx.need(tsw, "match on TokenKind in preprocess_simple")
+    tb_, tplace, ttargets, toth = max(tsw, key=lambda x: len(x[2]))
+    tnames = {v["idx"]: v["name"] for v in prog.adt(TK)["variants"]}
+    lp = [(h, body) for h, (body, latches) in kit.loops(pps).items() if tb_ in body]
+    ctx.need(lp, "token loop in preprocess_simple")
+    h_, body_ = min(lp, key=lambda x: len(x[1]))
+    errb_ = kit.error_blocks(pps)
+    def leaves_ok(start):
+        """can control leave the loop from `start` (without an error / panic) before coming back to its head?"""
+        for b in pps.reachable(start, avoid={h_}):
+            if b not in body_ and b not in errb_ and pps.term(b)["k"] in ("return", "goto", "call", "switch", "drop"):
+                if any(pps.term(x)["k"] == "return" for x in pps.reachable(b)):
+                    return True
+        return False
+    enders = sorted(tnames[vi] for vi, t_ in ttargets.items() if leaves_ok(t_))
+    if toth is not None and leaves_ok(toth):
+        enders.append("<any other kind>")
+    ctx.instance(1)
+    ok = enders == ["Eof"]
+    ctx.oblig(ok, {"token kinds that end eval's pre-pass": enders}, "Eof only")
+    if not ok:
+        ctx.violation("prepass-enders", sp_file_line(pps.term(tb_).get("sp")), "eval's token pre-pass stops at %s: whatever follows such a token never reaches the single-statement "
+                      "check, so surplus text after it is executed instead of refused" % enders)
     ctx.finish_rule()
 
     ctx.rule("C15.R5", "nothing on the eval path ends the session (closed ledger of exit sites)", floor=2)
